@@ -21,6 +21,7 @@ COMMON_TRUSTED = [
     'Coq 8.16.1 kernel (coqc; vm_compute used for finite sweeps and witnesses; no native_compute)',
     'no axioms: Print Assumptions of every property theorem must be "Closed under the global context"',
     'translator tools/gen_consts.py (regex-level scrape of constants, thresholds, field orders, tables from /repo)',
+    'translator tools/gen_ties.py (statement lists of the modelled C functions, comments and white space removed, regenerated into coq/gen/Ties.v on every run; compared by reflexivity with the committed coq/props/Ties_Cxx.v)',
     'extraction: ExtrOcamlBasic only (Extract Inductive bool, option, unit, list, prod, sumbool; no Extract Constant), OCaml 4.13.1',
     'correspondence driver: ocaml/common.ml (int <-> N glue), ocaml/stubs.c, the per-property ocaml/*.ml generators and comparators',
     'modelled rather than verified: the C code itself; it is tied to the Gallina model by the translator and by differential execution on the explored inputs only',
